@@ -503,6 +503,17 @@ Definition get_cookie (hdr : str) (key : str) (secret : option str) : gres * opt
     end
   end.
 
+(* several get_cookie calls on ONE request object: the request keeps no state
+   between reads (get_cookie reads self.cookies, which is cached but never changed,
+   and caches nothing itself), so the reads are made one after the other on the
+   same header *)
+Fixpoint get_cookie_seq (hdr : str) (reads : list (str * option str))
+  : list (gres * option (list N)) :=
+  match reads with
+  | [] => []
+  | (n, s) :: r => get_cookie hdr n s :: get_cookie_seq hdr r
+  end.
+
 End Signed.
 
 Arguments CStr {val}. Arguments CObj {val}.
@@ -637,6 +648,16 @@ Definition enc_gres (g : @gres pk) : list Z :=
 Definition loads_table (cs : list cspec) : list (list N * str) :=
   flat_map (fun c => if c_signed c then [(c_value c, c_name c)] else []) cs.
 
+Definition read_seq (hdr : str) (tbl : list (list N * str)) (reads : list (str * option str))
+  : list (@gres pk * option (list N)) :=
+  get_cookie_seq pk hmac_md5 (cloads tbl) hdr reads.
+
+Definition dec_read (l : list Z) : option ((str * option str) * list Z) :=
+  match dec_str l with
+  | Some (n, r) => match dec_opt_str r with Some (s, r') => Some ((n, s), r') | None => None end
+  | None => None
+  end.
+
 Definition scenario (l : list Z) : list Z :=
   match dec_list dec_cspec l with
   | Some (cs, kind :: a :: b :: r1) =>
@@ -645,7 +666,8 @@ Definition scenario (l : list Z) : list Z :=
       match dec_str r2 with
       | Some (rname, r3) =>
         match dec_opt_str r3 with
-        | Some (rsec, _) =>
+        | Some (rsec, r4) =>
+          let reads := match dec_list dec_read r4 with Some (x, _) => x | None => [] end in
           match set_all [] cs 0%Z with
           | inr (i, e) => [1%Z; i; e]
           | inl j =>
@@ -656,6 +678,8 @@ Definition scenario (l : list Z) : list Z :=
               let '(g, lc) := get_cookie pk hmac_md5 (cloads (loads_table cs)) hdr rname rsec in
               0%Z :: enc_list enc_str wires ++ enc_str hdr ++ enc_pres (parse_cookies hdr)
                   ++ enc_gres g ++ enc_option enc_str lc
+                  ++ enc_list (fun x => enc_gres (fst x) ++ enc_option enc_str (snd x))
+                              (read_seq hdr (loads_table cs) reads)
             end
           end
         | None => bad_input
